@@ -354,6 +354,67 @@ Proof.
     reflexivity.
 Qed.
 
+(* ---------- positions of extreme elements ---------- *)
+
+Lemma argmin_last_aux_spec : forall l pre bi bv,
+  nth_opt (pre ++ l) bi = Some bv -> (forall x, In x pre -> bv <= x) ->
+  exists lm, nth_opt (pre ++ l) (argmin_last_aux bi bv (length pre) l) = Some lm
+             /\ forall x, In x (pre ++ l) -> lm <= x.
+Proof.
+  induction l as [|y t IH]; intros pre bi bv Hb Hpre; cbn [argmin_last_aux].
+  - exists bv. split; auto. rewrite app_nil_r. exact Hpre.
+  - replace (pre ++ y :: t) with ((pre ++ [y]) ++ t) in * by (rewrite <- app_assoc; reflexivity).
+    replace (S (length pre)) with (length (pre ++ [y])) by (rewrite app_length; cbn; lia).
+    destruct (Z.ltb_spec bv y) as [E|E].
+    + apply IH; auto. intros x Hx. apply in_app_or in Hx as [Hx|[<-|[]]]; auto. lia.
+    + apply IH.
+      * rewrite <- app_assoc. cbn [app]. rewrite <- (Nat.add_0_r (length pre)), nth_opt_app_r. reflexivity.
+      * intros x Hx. apply in_app_or in Hx as [Hx|[<-|[]]]; [|lia]. specialize (Hpre x Hx). lia.
+Qed.
+
+Lemma argmin_last_spec l m : argmin_last l = Some m ->
+  exists lm, nth_opt l m = Some lm /\ forall x, In x l -> lm <= x.
+Proof.
+  destruct l as [|x t]; cbn [argmin_last]; [discriminate|]. intros H. injection H as <-.
+  apply (argmin_last_aux_spec t [x] 0%nat x); auto.
+  intros y [<-|[]]. lia.
+Qed.
+
+Lemma argmin_last_some l : l <> [] -> exists m, argmin_last l = Some m.
+Proof. destruct l; [congruence|]. intros _. eexists. reflexivity. Qed.
+
+Lemma argmin_first_aux_spec : forall l pre bi bv,
+  nth_opt (pre ++ l) bi = Some bv -> (forall x, In x pre -> bv <= x) ->
+  exists lm, nth_opt (pre ++ l) (argmin_first_aux bi bv (length pre) l) = Some lm
+             /\ forall x, In x (pre ++ l) -> lm <= x.
+Proof.
+  induction l as [|y t IH]; intros pre bi bv Hb Hpre; cbn [argmin_first_aux].
+  - exists bv. split; auto. rewrite app_nil_r. exact Hpre.
+  - replace (pre ++ y :: t) with ((pre ++ [y]) ++ t) in * by (rewrite <- app_assoc; reflexivity).
+    replace (S (length pre)) with (length (pre ++ [y])) by (rewrite app_length; cbn; lia).
+    destruct (Z.ltb_spec y bv) as [E|E].
+    + apply IH.
+      * rewrite <- app_assoc. cbn [app]. rewrite <- (Nat.add_0_r (length pre)), nth_opt_app_r. reflexivity.
+      * intros x Hx. apply in_app_or in Hx as [Hx|[<-|[]]]; [|lia]. specialize (Hpre x Hx). lia.
+    + apply IH; auto. intros x Hx. apply in_app_or in Hx as [Hx|[<-|[]]]; auto.
+Qed.
+
+Lemma argmax_last_aux_spec : forall l pre bi bv,
+  nth_opt (pre ++ l) bi = Some bv -> (forall x, In x pre -> x <= bv) ->
+  exists lm, nth_opt (pre ++ l) (argmax_last_aux bi bv (length pre) l) = Some lm
+             /\ forall x, In x (pre ++ l) -> x <= lm.
+Proof.
+  induction l as [|y t IH]; intros pre bi bv Hb Hpre; cbn [argmax_last_aux].
+  - exists bv. split; auto. rewrite app_nil_r. exact Hpre.
+  - replace (pre ++ y :: t) with ((pre ++ [y]) ++ t) in * by (rewrite <- app_assoc; reflexivity).
+    replace (S (length pre)) with (length (pre ++ [y])) by (rewrite app_length; cbn; lia).
+    destruct (Z.ltb_spec y bv) as [E|E].
+    + apply IH; auto. intros x Hx. apply in_app_or in Hx as [Hx|[<-|[]]]; auto. lia.
+    + apply IH.
+      * rewrite <- app_assoc. cbn [app]. rewrite <- (Nat.add_0_r (length pre)), nth_opt_app_r. reflexivity.
+      * intros x Hx. apply in_app_or in Hx as [Hx|[<-|[]]]; [|lia]. specialize (Hpre x Hx). lia.
+Qed.
+
 (* ---------- binary fuel ---------- *)
 
 Section IterFacts.
